@@ -33,3 +33,11 @@ def specs_blocks(tier):
     s += [(FM, "unit_subspaces_from_indices", {"nb": n, "symbolic": sy, "timeout_ms": t}) for n, sy in ((1, False), (2, False), (3, True))]
     s += [(FM, "unit_extract_diagonal", {"nb": n, "implicit": im, "timeout_ms": t}) for n, im in ((1, False), (2, False), (3, True))]
     return s
+
+
+def specs_linalg_misc(tier):
+    """linalg.is_diagonal (which H_0 blocks count as diagonal: C20 guard, C14 storage format) and linalg.aslinearoperator (sentinel passthrough)"""
+    t = 60000 if tier == "thorough" else 20000
+    s = [("contracts.linalg_misc", "unit_is_diagonal", {"kind": k, "timeout_ms": t}) for k in ("zero", "masked", "sympy", "dense", "sparse", "other")]
+    s.append(("contracts.linalg_misc", "unit_aslinearoperator", {"timeout_ms": t}))
+    return s
